@@ -85,7 +85,7 @@ def run(tier):
                 q = f"select swap_partitions_between_tables('{S}.tb_sw{i}', 1, 2, '{S}.tb_tg{i}')"
                 for mech in ("scoped", "env_after_import", "env_before_import"):
                     jobs.append({"mech": mech, "S": S, "dialect": d, "unq": unq, "q": q, "has_unq": True, "tags": ["stmt.swap_partitions"]})
-    for k in ("pairs_compared", "env_before_import_compared", "scoped_compared", "env_after_import_compared", "no_default_uniform_checked"):
+    for k in ("pairs_compared", "env_before_import_compared", "scoped_compared", "env_after_import_compared", "no_default_uniform_checked", "env_after_a_closed_scope_compared"):
         run_.need(k)
     ref_cases = {}
     for j in jobs:
@@ -99,6 +99,16 @@ def run(tier):
         lcases = [{"sql": j["unq"], "dialect": j["dialect"], "want": [], **({"config": {"DEFAULT_SCHEMA": j["S"]}} if j["mech"] == "scoped" else {"env": {"SQLLINEAGE_DEFAULT_SCHEMA": j["S"]}})} for j in live]
         lres = pool.map("vlib.observe:run_case", lcases, timeout=180)
     results = {id(j): x for j, x in zip(live, lres)}
+    # history mechanism: an earlier, closed scope set another default schema on the same thread; the analysed script then runs inside a scope that
+    # does not mention DEFAULT_SCHEMA, the default coming from the environment
+    hist = [dict(j, mech="env_after_a_closed_scope") for j in live if j["mech"] == "env_after_import"][:: (3 if tier == "quick" else 1)]
+    with Pool() as pool:
+        hres = pool.map("vlib.observe:run_sequence",
+                        [[{"sql": "select k from stale_tab", "dialect": "ansi", "want": [], "config": {"DEFAULT_SCHEMA": "stale_zz"}},
+                          {"sql": j["unq"], "dialect": j["dialect"], "want": [], "env": {"SQLLINEAGE_DEFAULT_SCHEMA": j["S"]}, "config": {"LATERAL_COLUMN_ALIAS_REFERENCE": False}}] for j in hist], timeout=240)
+    for j, (st_, rs) in zip(hist, hres):
+        results[id(j)] = (st_, rs[1] if st_ == "ok" else rs)
+    jobs = jobs + hist
     for S in ("zs_fresh", "sa"):
         sub = [j for j in jobs if j["mech"] == "env_before_import" and j["S"] == S]
         if not sub:
@@ -162,7 +172,7 @@ def _resort(x, S):
 def classify(j, diff, a, e):
     # KF-01 / KF-32 seen through the default schema: the qualifier of a relation the analyzer lost falls through to Table(qualifier),
     # which gets the default schema on one side and the placeholder on the other (the text says nothing about that qualifier's schema)
-    for tag, kfid in (("from.mixed_comma_join", "KF-01"), ("where.in_subquery_comma_join", "KF-32")):
+    for tag, kfid in (("from.mixed_comma_join", "KF-01"), ("where.in_subquery_comma_join", "KF-32"), ("join.parenthesised_group_first_aliased", "KF-36")):
         if tag in j.get("tags", []):
             if all(_resort(a[f], j["S"]) == _resort(e[f], j["S"]) for f in diff):
                 return kfid
